@@ -816,7 +816,7 @@ def recognition_total(ctx):
             guarded = any(c[0] == 'cmp' and c[1] in ('in', 'notin') and ((c[2] == key and (c[1] == 'in') == p)) for c, p in e.guards) \
                 or any(c[0] == 'cmp' and c[1] == 'notin' and c[2] == key and not p for c, p in e.guards) \
                 or e.handled('KeyError')
-            derived = key[0] in ('elem', 'call')      # a key read from the file itself
+            derived = key[0] in ('elem', 'call', 'nth')      # a key read from the file itself
             ctx.check((not tainted) or guarded or derived, R, f'{q.split(".")[-1]}:{T.show(key)[:30]}', ctx.where(f, e),
                       found=f'subscript {T.show(g)[:80]} ' + ('guarded' if guarded else 'unguarded'),
                       expected='membership test or KeyError handler before a caller-supplied key is used',
